@@ -170,10 +170,14 @@ def build_harness(name, sources, variant="asan", extra=None, libs=None, defines=
     with Lock(os.path.join(CACHE, "lock-h-%s-%s" % (variant, name))):
         if os.path.exists(exe):
             return exe
+        # older builds of this harness: removed only when stale (a concurrent run of another
+        # version of the same harness source may still be executing its binary)
         for f in os.listdir(hd):
             if f.startswith(name + "-"):
                 try:
-                    os.unlink(os.path.join(hd, f))
+                    fp = os.path.join(hd, f)
+                    if time.time() - os.path.getmtime(fp) > 1800:
+                        os.unlink(fp)
                 except OSError:
                     pass
         cmd = [cc] + cflags.split() + ["-D" + GUARD, "-DHAVE_CONFIG_H=0",
